@@ -334,33 +334,73 @@ def classify_reg(lay, path, kind):
     return ",".join(cls) if cls else "plain"
 
 
-def explain_diff(lay, path, a, b, kind, text=False):
-    """input class of a register whose value changed from a to b in a configuration round trip"""
+def explain_diff(lay, path, a, b, kind, fresh):
+    """signature part for a register whose value changed from a to b in a configuration round trip: the causes of the
+    recorded findings when b is EXACTLY what they produce, else the structural class of the register + ':other-outcome'"""
+    pred, causes = predicted_cfg_roundtrip(lay, path, a, fresh)
+    if causes and pred == b:
+        return "+".join(sorted(causes))
+    return classify_reg(lay, path, kind) + ":other-outcome"
+
+
+def export_order(lay):
+    """indices of the top-level registers in the order BinaryImage writes them (by offset, stable)"""
+    return sorted(range(len(lay["regs"])), key=lambda i: lay["regs"][i]["off"])
+
+
+def readback_outcome(lay, kind, path, want, got, sn, stage, touched):
+    """signature part of a configured value that is not read back: the recorded finding(s) when got is EXACTLY what they
+    produce (C12-F1 truncating group, C12-F3 reversal under another width, C12-F4 / F1 overlapped bytes), else ':other-outcome'"""
     r = get_reg(lay, path)
-    diff = a ^ b
-    if r["fields"] and diff:
-        if diff & ~dupfield_mask(r) == 0:
-            return "duplicate-bit-field-names"
-        if diff & ~ambiguous_mask(r) == 0:
-            return "ambiguous-enum-names"
-        if text and diff & ~fragile_mask(r) == 0:
-            return "enum-name-not-a-yaml-string"
-        if diff & covered_mask(r) == 0:
-            return "bits-outside-every-bit-field"
-    return classify_reg(lay, path, kind)
+    cls = classify_reg(lay, path, kind)
+    tags, w1 = [], want
+    if len(path) == 1 and r["subs"] and len(r["subs"]) * r["subs"][0]["w"] < r["w"] and not r["rev"]:
+        w1 = want & ((1 << (len(r["subs"]) * r["subs"][0]["w"])) - 1)
+        tags.append("group-wider-than-its-sub-registers:kept-only-the-existing-sub-registers")
+    if len(path) == 1 and r["alt"] and r["rev"] and ("aw", path[0]) in touched:
+        nb = touched[("aw", path[0])][1] // 8
+        w1 = d9_set(r, int.from_bytes(want.to_bytes(nb, "little"), "big"))          # from the configured number
+        tags.append("alt-widths-reversed:reversed-under-the-width-the-value-selects")
+    if tags and w1 != want and got == w1:
+        return "+".join(tags)
+    if stage == "after-export-parse" and len(path) == 1 and kind != "fuses" and "overlapped-register" in cls:
+        order = export_order(lay)
+        a, b = reg_range(r)
+        bo = "big" if lay["big"] else "little"
+        wb, gb = w1.to_bytes(b - a, bo), got.to_bytes(b - a, bo)
+        ok = True
+        for p in range(a, b):
+            later = [q for q in order[order.index(path[0]) + 1:] if reg_range(lay["regs"][q])[0] <= p < reg_range(lay["regs"][q])[1]]
+            if later:
+                q = later[-1]
+                qa, qb = reg_range(lay["regs"][q])
+                ok &= gb[p - a] == sn[q][0].to_bytes(qb - qa, bo)[p - qa]
+            else:
+                ok &= gb[p - a] == wb[p - a]
+        if ok:
+            return "+".join([x for x in tags if w1 != want] + ["overlapped-register:overlapped-bytes-hold-the-later-register"])
+    return cls + ":other-outcome"
+
+
+def fresh_snap(lay):
+    return [[fresh_raw(r)] + [s["value"] for s in r["subs"]] for r in lay["regs"]]
 
 
 def snap_diff_classes(lay, kind, s1, s2, text=False):
     cls = set()
+    fr = fresh_snap(lay)
     for i, (x, y) in enumerate(zip(s1, s2)):
         if x != y:
             r = lay["regs"][i]
             if r["subs"]:
-                sub_cls = {explain_diff(lay, (i, j), p, q, kind, text) for j, (p, q) in enumerate(zip(x[1:], y[1:])) if p != q}
-                top_cls = explain_diff(lay, (i,), x[0], y[0], kind, text)
-                cls |= ({top_cls} if top_cls != "plain" or not sub_cls else sub_cls)
+                top_cls = explain_diff(lay, (i,), x[0], y[0], kind, fr[i][0])
+                if not top_cls.endswith(":other-outcome"):
+                    cls.add(top_cls)
+                else:
+                    sub = {explain_diff(lay, (i, j), p, q, kind, fr[i][1 + j]) for j, (p, q) in enumerate(zip(x[1:], y[1:])) if p != q}
+                    cls |= (sub or {top_cls})
             else:
-                cls.add(explain_diff(lay, (i,), x[0], y[0], kind, text))
+                cls.add(explain_diff(lay, (i,), x[0], y[0], kind, fr[i][0]))
     return "+".join(sorted(cls)) if cls else "no-register-differs"
 
 
@@ -462,7 +502,11 @@ def gen_settings(rng, lay, d, density):
             if r["alt"] and rng.random() < 0.5:
                 aw = rng.choice(r["alt"])
             v = rnd_width_value(rng, aw)
-            if r["hex"]:
+            if r["alt"]:
+                # the digit count says which of the alternative widths is meant (what the template prints)
+                form = format(v, "0%dX" % (aw // 4)) if r["hex"] else "0x" + format(v, "0%dX" % (aw // 4))
+                touched[("aw", i)] = ("aw", aw)
+            elif r["hex"]:
                 form = format(v, "0%dX" % (aw // 4)) if rng.random() < 0.8 else v
             else:
                 form = num_form(rng, v)
@@ -473,6 +517,66 @@ def gen_settings(rng, lay, d, density):
                 settings[r["name"]] = form
                 touched[(i,)] = ("scalar", v)
     return settings, touched
+
+
+def alt_width_of(r, v):
+    """Register.get_alt_width: the smallest alternative width the value fits in (else the full width)"""
+    n = max(1, (v.bit_length() + 7) // 8)
+    for a in sorted(r["alt"]):
+        if n <= a // 8:
+            return a
+    return r["w"]
+
+
+def d9_set(r, x):
+    """the recorded outcome D9 / C12-F3 of set_value(x, raw=False) on a reversed register with alternative widths:
+    the bytes are reversed under the width selected by the VALUE"""
+    aw = alt_width_of(r, x)
+    return int.from_bytes(x.to_bytes(aw // 8, "big"), "little")
+
+
+def d9_get(r, raw):
+    aw = alt_width_of(r, raw)
+    return int.from_bytes(raw.to_bytes(aw // 8, "little"), "big")
+
+
+def predicted_cfg_roundtrip(lay, path, a, fresh):
+    """the recorded outcomes of get_config -> load on one register holding a (C12-F3, C12-F7): (predicted value, causes)"""
+    r = get_reg(lay, path)
+    causes = set()
+    if r["alt"] and r["rev"] and not r["fields"]:
+        b = d9_set(r, d9_get(r, a)) if d9_get(r, a) < (1 << r["w"]) else None
+        return b, ({"alt-widths-reversed:reversed-under-the-width-the-value-selects"} if b is not None and b != a else set())
+    if not r["fields"]:
+        return a, causes
+    b = a
+    names = [f["name"] for f in r["fields"]]
+    val = lambda v, f: (v >> f["off"]) & ((1 << f["w"]) - 1)
+    put = lambda v, f, x: (v & ~(((1 << f["w"]) - 1) << f["off"])) | ((x & ((1 << f["w"]) - 1)) << f["off"])
+    for k, f in enumerate(r["fields"]):
+        old = val(a, f)
+        if names.count(f["name"]) > 1:
+            first = names.index(f["name"])
+            last = len(names) - 1 - names[::-1].index(f["name"])
+            new = val(a, r["fields"][last]) if k == first else val(fresh, f)
+            if k == first and new >= (1 << f["w"]):
+                return None, causes
+            if new != old:
+                causes.add("duplicate-bit-field-names")
+            b = put(b, f, new)
+            continue
+        # written as the name of the first enum with this value, read as the first enum of that name
+        nm = next((n for (n, v) in f["enums"] if v == (old << (f["cnt"] if f["shr"] else 0))), None)
+        if nm is not None:
+            c0 = enum_const(f, nm) >> (f["cnt"] if f["shr"] else 0)
+            if c0 != old:
+                causes.add("ambiguous-enum-names")
+                b = put(b, f, c0)
+    unc = ((1 << r["w"]) - 1) & ~covered_mask(r)
+    if (a ^ fresh) & unc:
+        causes.add("bits-outside-every-bit-field")
+        b = (b & ~unc) | (fresh & unc)
+    return b, causes
 
 
 def byte_reverse(v, nbytes):
@@ -495,12 +599,15 @@ def expected_raw(lay, d, touched, computed_apply):
     """what the property demands of the raw register values after loading (None: not determined by this oracle)"""
     exp = {}
     for path, (how, x) in touched.items():
+        if how == "aw":
+            continue
         r = lay["regs"][path[0]] if len(path) == 1 else lay["regs"][path[0]]["subs"][path[1]]
         nb = r["w"] // 8
         if how in ("scalar", "value"):
             if r["rev"]:
                 if r["alt"]:
-                    continue
+                    # the hex string of aw/4 digits is the content of the first aw/8 bytes of the register
+                    nb = touched[("aw", path[0])][1] // 8
                 exp[path] = byte_reverse(x, nb)
             else:
                 exp[path] = x
@@ -522,7 +629,7 @@ def expected_raw(lay, d, touched, computed_apply):
             if compute:
                 exp[p] = computed_apply(c["method"], exp[p])
     # a sub-register written after its group (or the other way round) is not tracked
-    tops = {p[0] for p in touched if len(p) == 2}
+    tops = {p[0] for p in touched if len(p) == 2 and p[0] != "aw"}
     for p in list(exp):
         if len(p) == 1 and p[0] in tops:
             del exp[p]
@@ -900,7 +1007,12 @@ def sweep_problems(d, lay):
         if not 0 <= x["value"] < 1 << w or not 0 <= x["reset"] < 1 << w:
             probs.append(f"{x['name']}: value or reset value outside {w} bits")
         if x["alt"]:
-            known.add("alternative-widths") if top else probs.append(f"{x['name']}: sub-register with alternative widths")
+            if not top:
+                probs.append(f"{x['name']}: sub-register with alternative widths")
+            elif any(a <= 0 or a > w or a % 8 for a in x["alt"]):
+                probs.append(f"{x['name']}: alternative widths {x['alt']} of a {w}-bit register")
+            else:
+                known.add("alternative-widths")
         fs = x["fields"]
         for f in fs:
             if f["off"] < 0 or f["w"] <= 0 or f["off"] + f["w"] > w or f["cnt"] < 0:
@@ -917,8 +1029,10 @@ def sweep_problems(d, lay):
         if r["subs"]:
             if any(s["w"] != r["subs"][0]["w"] for s in r["subs"]):
                 probs.append(f"{r['name']}: sub-registers of different widths")
-            elif len(r["subs"]) * r["subs"][0]["w"] != r["w"]:
+            elif len(r["subs"]) * r["subs"][0]["w"] < r["w"]:
                 known.add("group-wider-than-its-sub-registers")
+            elif len(r["subs"]) * r["subs"][0]["w"] > r["w"]:
+                probs.append(f"{r['name']}: group narrower than its sub-registers")
             if r["value"] != 0:
                 probs.append(f"{r['name']}: group register with an own value")
         a, b = reg_range(r)
@@ -969,7 +1083,7 @@ def sweep(rep, R):
         lay, _ = R["model_layouts"][li]
         probs, known = sweep_problems(d, lay)
         users = [i for i in R["instances"] if i[4] == li]
-        if probs and not known and rep is not None:
+        if probs and rep is not None:
             rep.failing(f"sweep:{d['kind']}:malformed-layout", f"{d['kind']} {users[0][1]}/{users[0][2]}{('/' + users[0][3]) if users[0][3] else ''} "
                         f"({len(users)} instances): {probs[0]}",
                         {"kind": "database-sweep", "instances": users[:20], "problems": probs[:20]})
@@ -1069,12 +1183,20 @@ def apply_oracles(rep, case, res, R):
     if kind == "memcfg":
         ds = 4 * len(lay["regs"])
     if ds is not None and len(b1) != ds:
-        fail(f"size:{kind}:{layout_class(d, lay, 'size')}", f"exported {len(b1)} bytes, documented size {ds}")
+        cls = layout_class(d, lay, "size")
+        if cls != "plain" and len(b1) != layout_end(lay):
+            cls += ":other-length"
+        fail(f"size:{kind}:{cls}", f"exported {len(b1)} bytes, documented size {ds}")
     # the area's own parser accepts the export and re-exports it identically
     if kind != "fuses":
         nchecks += 1
         if "parse" in res and "err" in res["parse"]:
-            fail(f"parse:{kind}:rejects-own-export:{layout_class(d, lay, 'tag')}", f"the area's parser rejects the exported binary: {res['parse']}")
+            cls = layout_class(d, lay, "tag")
+            if cls != "plain":
+                ta, tb = reg_range(lay["regs"][d["tag_reg"]])
+                if res["parse"]["err"] != 1 or b1[ta:tb] == bytes.fromhex(d["tag"]):
+                    cls += ":other-outcome"
+            fail(f"parse:{kind}:rejects-own-export:{cls}", f"the area's parser rejects the exported binary: {res['parse']}")
         elif "export2" in res:
             if res["export2"].get("ok") != e1["ok"]:
                 cls = snap_diff_classes(lay, kind, res["snap"]["ok"], res["snap2"]["ok"]) if "ok" in res.get("snap", {}) and "ok" in res.get("snap2", {}) else "?"
@@ -1117,7 +1239,7 @@ def apply_oracles(rep, case, res, R):
                 got = sn[path[0]][0] if len(path) == 1 else sn[path[0]][1 + path[1]]
                 if got != want:
                     r = get_reg(lay, path)
-                    fail(f"value-readback:{kind}:{stage}:{classify_reg(lay, path, kind)}",
+                    fail(f"value-readback:{kind}:{stage}:{readback_outcome(lay, kind, path, want, got, sn, stage, case['touched'])}",
                          f"register {r['name']} was configured to hold {want:#x} but holds {got:#x} {stage.replace('-', ' ')}",
                          {"register": r["name"]})
                     break
@@ -1128,7 +1250,7 @@ def apply_oracles(rep, case, res, R):
             cls = layout_class(d, lay, "memcfg-count") if kind == "memcfg" else "plain"
             fail(f"config:{kind}:get_config-failed:{cls}", f"get_config failed: {res['get_config']}")
         elif "load3" in res and "err" in res["load3"]:
-            fail(f"config:{kind}:own-config-rejected:{layout_class(d, lay, 'own-config')}",
+            fail(f"config:{kind}:own-config-rejected:{layout_class(d, lay, 'own-config')}:{'spsdk-error' if res['load3']['err'] == 1 else 'crash'}",
                  f"the configuration produced by get_config does not load: {res['load3']}")
         elif kind == "memcfg":
             if res.get("option_words3") != res.get("option_words"):
@@ -1136,7 +1258,7 @@ def apply_oracles(rep, case, res, R):
                 w1, w3 = res.get("option_words", {}).get("ok"), res.get("option_words3", {}).get("ok")
                 if isinstance(w1, list) and isinstance(w3, list) and len(w1) == len(w3):
                     vis = [i for i, r in enumerate(lay["regs"]) if not r["hidden"]]
-                    cls = "+".join(sorted({explain_diff(lay, (vis[n],), a_, b_, kind) for n, (a_, b_) in enumerate(zip(w1, w3)) if a_ != b_}))
+                    cls = "+".join(sorted({explain_diff(lay, (vis[n],), a_, b_, kind, fresh_raw(lay["regs"][vis[n]])) for n, (a_, b_) in enumerate(zip(w1, w3)) if a_ != b_}))
                 fail(f"roundtrip:{kind}:config:{cls}", f"option words {res.get('option_words')} -> {res.get('option_words3')}")
         elif comp_ok and "export3" in res and res["export3"].get("ok") != e1["ok"]:
             cls = snap_diff_classes(lay, kind, res["snap"]["ok"], res["snap3"]["ok"]) \
@@ -1182,6 +1304,11 @@ def apply_oracles(rep, case, res, R):
             want = bytearray(b1)
             want[a:bnd] = rk.ljust(bnd - a, b"\0")
             if s != bytes(want):
+                d9 = bytearray(b1)
+                if r["alt"] and r["rev"] and int.from_bytes(rk, "big") < (1 << r["w"]):
+                    d9[a:bnd] = d9_set(r, int.from_bytes(rk, "big")).to_bytes(bnd - a, "little")
+                    if s == bytes(d9):
+                        lead += ":placed-under-the-width-the-value-selects"
                 fail(f"rotkh:{kind}:wrong:{cls}:{lead}", f"the ROTKH bytes {rk.hex()} are not what the exported binary holds at {a:#x}: "
                      + s[a:bnd].hex())
     if kind == "xmcd":
@@ -1217,7 +1344,11 @@ def apply_oracles(rep, case, res, R):
                     o = owner.get(p, [])
                     if len(o) == 1 and not lay["regs"][o[0]]["hidden"] and rb[p] != b5[p]:
                         r = lay["regs"][o[0]]
-                        fail(f"roundtrip:{kind}:binary:{classify_reg(lay, (o[0],), kind)}",
+                        cls = classify_reg(lay, (o[0],), kind) + ":other-outcome"
+                        if r["subs"] and len(r["subs"]) * r["subs"][0]["w"] != r["w"] and not lay["big"] \
+                                and p - r["off"] >= len(r["subs"]) * r["subs"][0]["w"] // 8 and b5[p] == 0:
+                            cls = "group-wider-than-its-sub-registers:byte-beyond-the-existing-sub-registers-exported-as-zero"
+                        fail(f"roundtrip:{kind}:binary:{cls}",
                              f"byte {p:#x} of register {r['name']}: parsed {rb[p]:#04x}, exported {b5[p]:#04x}")
                         break
                 comp5 = all(computed_holds(c["method"], int.from_bytes(b5[reg_range(lay["regs"][c["reg"][0]])[0]:reg_range(lay["regs"][c["reg"][0]])[1]], "little"))
@@ -1226,7 +1357,7 @@ def apply_oracles(rep, case, res, R):
                     cls = layout_class(d, lay, "memcfg-count") if kind == "memcfg" else "plain"
                     fail(f"config:{kind}:get_config-failed:{cls}", f"get_config of a parsed binary failed: {res['get_config5']}")
                 elif "export6" in res and "err" in res["export6"]:
-                    fail(f"config:{kind}:own-config-rejected:{layout_class(d, lay, 'own-config')}",
+                    fail(f"config:{kind}:own-config-rejected:{layout_class(d, lay, 'own-config')}:{'spsdk-error' if res['export6']['err'] == 1 else 'crash'}",
                          f"the configuration of a parsed binary does not load: {res['export6']}")
                 elif comp5 and kind != "memcfg" and "export6" in res and res["export6"].get("ok") != res["export5"]["ok"]:
                     cls = snap_diff_classes(lay, kind, res["snap5"]["ok"], res["snap6"]["ok"]) \
